@@ -678,6 +678,9 @@ func ruleP7(r *Run) {
 		}
 		if fd, _ := p.DeclOf(tr, "conn.Exit"); fd != nil {
 			callsOnExit, closes := false, false
+			var narrowed []string
+			eparents := parentMap(fd.Body)
+			eparams := paramsOf(info, fd.Type)
 			ast.Inspect(fd.Body, func(m ast.Node) bool {
 				if c, ok := m.(*ast.CallExpr); ok {
 					if id, ok := ast.Unparen(c.Fun).(*ast.Ident); ok && id.Name == "onExit" {
@@ -685,10 +688,29 @@ func ruleP7(r *Run) {
 					}
 					if methodName(c) == "Close" {
 						closes = true
+						// Close(err) may depend on nothing but "there is an error": err != nil / e != nil
+						for _, fc := range collectFacts(eparents, c) {
+							okFact := false
+							if be, isB := fc.e.(*ast.BinaryExpr); isB && (be.Op == token.NEQ && !fc.neg || be.Op == token.EQL && fc.neg) {
+								if id, isID := ast.Unparen(be.Y).(*ast.Ident); isID && id.Name == "nil" {
+									if o := identObj(info, be.X); o != nil {
+										for _, pv := range eparams {
+											if pv == o {
+												okFact = true
+											}
+										}
+									}
+								}
+							}
+							if !okFact {
+								narrowed = append(narrowed, types.ExprString(fc.e))
+							}
+						}
 					}
 				}
 				return true
 			})
+			r.Check(len(narrowed) == 0, tr+".conn.Exit closes on every error", fd.Pos(), "Close(err) depends only on err != nil", fmt.Sprintf("Exit skips Close(err) depending on %s: when a loop ends with such an error the connection is never closed and its pending calls are never failed - they wait for their own timeouts, OnClose never runs", strings.Join(narrowed, ", ")))
 			r.Check(callsOnExit && closes, tr+".conn.Exit drops the connection and fails pending calls", fd.Pos(), "onExit() ... c.Close(err)", "Exit no longer runs onExit (pool removal) and Close(err) (failing pending calls)")
 		}
 		if fd, _ := p.DeclOf(tr, "Transport.getConn"); fd != nil {
